@@ -278,7 +278,7 @@ class Resources:
                     else 0
                 )
                 current_memory_gb = Resources._convert_to_gb(resources.memory)
-                if current_memory_gb > max_memory_gb:
+                if max_data["memory"] is None or current_memory_gb > max_memory_gb:
                     max_data["memory"] = resources.memory
             if resources.time is not None:
                 max_data["time"] = (
